@@ -380,7 +380,9 @@ LEVEL_TEXT = (
     "and without q'; Gibbs-Duhem is decided in integral form on the real function with a tolerance that is a pure "
     "numerical-error bound (quadrature error + measured evaluation noise), limits, Raoult reduction (bitwise), the partial-pressure "
     "product (4 ulp) and basis independence. UNIQUAC Gibbs-Duhem failures are reported as the known finding only when "
-    "the executable signature of KF-UNIQUAC-GAMMA2 matches at every stencil point; everything else is a violation."
+    "the executable signature of KF-UNIQUAC-GAMMA2 matches at every stencil point; everything else is a violation. "
+    "Returned results are held across later calls and overwritten before the request is repeated (no aliased results); "
+    "one burst of concurrent calls from 4 threads per shard must reproduce the serial values."
 )
 LEVEL_NOTE = "Trusted: refmodel.uniquac_gammas (only for classifying the known finding), numerical differentiation with explicit round-off bound; sampled domain only."
 TECHNIQUE = "runtime monitoring: numerical-derivative identity oracle on seeded executions of the real activity-coefficient code, signature-based known-finding classifier"
